@@ -192,18 +192,44 @@ package cputensor
 //@   returns fresh
 //@   ensures o != nil && redShape(o, t, dim) && forallJ(J, imp(inb(o, J), el(o, J) == appT(trf, fibre(t, dim, J))))
 
+// Whole-tensor statistics are *defined* as left folds over the data tree in row-major order (foldD / foldK), from the
+// neutral start value; the code's recursion trav is proved to compute exactly that fold.
+//@ predicate isPlusFn(f Fn) := forallR(a, forallR(b, app2(f, a, b) == a + b))
+//@ predicate isMaxFn(f Fn) := forallR(a, forallR(b, app2(f, a, b) == ite(a > b, a, b)))
+//@ predicate isMinFn(f Fn) := forallR(a, forallR(b, app2(f, a, b) == ite(a < b, a, b)))
+//@ predicate isSqDevFn(f Fn, m Real) := forallR(a, forallR(b, app2(f, a, b) == a + pow(b - m, 2.0)))
+//@ axiom tsumDef: forallT(t, forallF(f, imp(t != nil && published(t) && isPlusFn(f), tsum(t) == foldD(f, t.data, len(t.dims), 0.0))))
+//@ axiom tmaxDef: forallT(t, forallF(f, imp(t != nil && published(t) && isMaxFn(f), tmax(t) == foldD(f, t.data, len(t.dims), inf(0-1)))))
+//@ axiom tminDef: forallT(t, forallF(f, imp(t != nil && published(t) && isMinFn(f), tmin(t) == foldD(f, t.data, len(t.dims), inf(1)))))
+//@ axiom tvarDef: forallT(t, imp(t != nil && published(t), imp(nelems(t) <= 1, tvar(t) == 0.0) && forallF(f, imp(isSqDevFn(f, tsum(t) / real(nelems(t))) && nelems(t) > 1,
+//@                tvar(t) == foldD(f, t.data, len(t.dims), 0.0) / (real(nelems(t)) - 1)))))
+
+//@ func CPUTensor.reduceByAssociativeFunc
+//@   requires t != nil && published(t) && af != nil
+//@   uses dimsLink, dataLink
+//@   ensures value == foldD(af, t.data, len(t.dims), identity)
+//@ func CPUTensor.reduceByAssociativeFunc#0
+//@   requires af != nil && forall(k, 0, len(dims), dims[k] >= 0) && WF(data, arrOf(dims), offOf(dims), endOf(dims))
+//@   modifies value
+//@   ensures value == foldD(af, data, len(dims), old(value))
+//@   loop 0 invariant value == foldK(af, data, len(dims) + 1, old(value), i)
+
 //@ func CPUTensor.sum
-//@   assumed L2 fold over the nested data (reduceByAssociativeFunc.trav); bounded stand-in: rac TestReducers
-//@   ensures value == tsum(t)
+//@   requires t != nil && published(t)
+//@   uses tsumDef
+//@   ensures[C05] value == tsum(t)
 //@ func CPUTensor.max
-//@   assumed L2 fold over the nested data; bounded stand-in: rac TestReducers
-//@   ensures value == tmax(t)
+//@   requires t != nil && published(t)
+//@   uses tmaxDef
+//@   ensures[C05] value == tmax(t)
 //@ func CPUTensor.min
-//@   assumed L2 fold over the nested data; bounded stand-in: rac TestReducers
-//@   ensures value == tmin(t)
+//@   requires t != nil && published(t)
+//@   uses tminDef
+//@   ensures[C05] value == tmin(t)
 //@ func CPUTensor._var
-//@   assumed L2 fold over the nested data; bounded stand-in: rac TestReducers
-//@   ensures value == tvar(t)
+//@   requires t != nil && published(t)
+//@   uses tvarDef, dimsLink
+//@   ensures[C05] value == tvar(t)
 
 //@ func CPUTensor.avg
 //@   uses dimsLink
